@@ -9,6 +9,24 @@ from checkplan import PLAN
 BASELINE = json.load(open('/root/.vp/BASELINE.json'))['cmd']
 
 CHECKS = {
+ "C01": dict(
+    cat="fault_enumeration",
+    text="Runtime monitoring under structure-aware fault injection: every public entry point is driven on real fonts with 1-4 injected faults while panic, allocation (refusal + peak), CPU-time, stack and read-window monitors watch; the supervisor attributes aborts/hangs to the case in flight. Holds on the executions observed; known crash sites are listed individually in known_findings.json.",
+    ref="DESIGN.md §4 C01",
+    note="Trusted: monitor thresholds (1 GiB request, 256 MiB+512 B/byte peak, 4 s+40 us/byte CPU, 8 MiB stack); strict build profile. Not covered: inputs outside the fault operators' reach.",
+    technique="fault injection + panic/alloc/CPU/stack monitors in supervised workers"),
+ "C06": dict(
+    cat="exploration",
+    text="Runtime monitoring against an abstract code->glyph map: generated cmap tables in every format and layout variant, written by an independent writer, are probed through every lookup API and through whole-font lookup with all supported encodings; real fonts are compared with an independent reader; the character-set conversions are checked exhaustively.",
+    ref="DESIGN.md §4 C06",
+    note="Trusted: the independent cmap writer/reader (self-tested against each other at setup) and the Python-codec tables; the documented subtable preference order.",
+    technique="reference-model oracle over generated cmap tables + exhaustive conversion sub-spaces"),
+ "C13": dict(
+    cat="exploration",
+    text="Runtime monitoring against an exact rational reference model of fvar/avar normalisation over generated axis triples, segment maps and user values, with exhaustive coverage of all 65536 F2Dot14 values for the fixed-point conversions.",
+    ref="DESIGN.md §4 C13",
+    note="Trusted: the model's reading of the OpenType normalisation algorithm; harness fvar/avar writers (self-checked by allsorts parsing them).",
+    technique="reference-model oracle over generated inputs + exhaustive sub-space"),
  "C14": dict(
     cat="exploration",
     text="Runtime monitoring: random reader-operation programs over poisoned buffers checked step by step against a shadow model, with the read-window hook, Miri, ASan and memcheck as out-of-bounds detectors; plus real/faulted font parsing under the hook. Holds on the executions observed only.",
